@@ -37,6 +37,9 @@ class CaseBuilder:
         return len(self.invoices) - 1
 
     def htlc(self, inv, amt, total, expiry=None, rel=None, hash_idx=None, amount_tlv=None, forward="amt", scid=None, bolt11s=None, raw_payload=None):
+        if forward == "amt" and self.r.chance(1, 4):
+            # the onion's forward_msat need not equal what the HTLC carries (skimmed upstream / malicious sender)
+            forward = min(2**64 - 1, self.r.choice([amt + 1, amt * 2 + 7, max(0, amt - 1), total, 0, 2**64 - 1]))
         """HTLC spec; the bolt11 string is filled in by `finish` once the harness has built the invoices."""
         h = self.inv_hash[inv] if hash_idx is None else hash_idx
         pol = self.cfg["policy"]
@@ -75,7 +78,7 @@ def std_pool(r, b, h, amount=1000000, npieces=None):
     pool = [b.htlc(inv, p, total) for p in pieces]
     extra = []
     if r.chance(1, 2): extra.append(b.htlc(inv, 1000, total))                                    # over-funding piece
-    if r.chance(1, 3): extra.append(b.htlc(inv, pieces[0], total, rel=max(0, pol[2] - 1 - r.below(10))))   # expiry too low
+    if r.chance(1, 3): extra.append(b.htlc(inv, pieces[0], total, rel=r.choice([max(0, pol[2] - 1 - r.below(10)), -1, -2**32 + 3, -2**63])))   # expiry too low / already passed
     if r.chance(1, 3): extra.append(b.htlc(inv, pieces[0], max(0, need - 1)))                            # declared total too low
     if r.chance(1, 4):
         inv2 = b.add_invoice(h, amount, ts=99)                                                   # conflicting invoice, same hash
@@ -171,7 +174,7 @@ def story_case(r, ending=None, npieces=None, reject=None, nhash=1, heights=True,
     hts = [b.htlc(inv, p, total, expiry=r.choice([1500, 2000, 2400, 70000]), rel=pol[2] + r.below(600)) for p in pieces]
     if reject:
         kind, pos = reject
-        if kind == "low_expiry": x = b.htlc(inv, 1000, total, rel=max(0, pol[2] - 1 - r.below(5)))
+        if kind == "low_expiry": x = b.htlc(inv, r.choice([1000, total]), total, rel=r.choice([max(0, pol[2] - 1 - r.below(5)), 0, -1, -1 - r.below(1000), -2**31, -2**32 + 5, -2**63]))
         elif kind == "low_total": x = b.htlc(inv, 1000, max(0, need - 1 - r.below(3)))
         elif kind == "other_invoice": x = b.htlc(b.add_invoice(0, amount, ts=77), 1000, total)
         else: x = b.htlc(b.add_invoice(0, None), 1000, total, amount_tlv=amount + 7)     # other amount
@@ -193,6 +196,21 @@ def story_case(r, ending=None, npieces=None, reject=None, nhash=1, heights=True,
         script += [{"e": "drain"}] + pay_ending(r, r.choice(PAY_ENDINGS)) + [{"e": "drain"}]
     return {"cfg": cfg, "invoices": b.invoices, "preimages": b.preimages, "_script": script, "family": "story/%s/%s%s" % (ending, reject and reject[0], "/second" if second else ""),
             "suffix": [{"e": "finale"}], "_b": b, "_probe": b.htlc(inv, total, total, expiry=5000, rel=pol[2] + 100)}
+
+def straggler_case(r, ending=None):
+    """The first lifecycle's bookkeeping RPCs are withheld at some point after its pay ended while a second,
+    fully funded set runs its own payment; then the stragglers are released."""
+    c = story_case(r, ending=ending or r.choice(["failed_noparts", "failed_after_partfail", "pending_then_fail", "error_then_fail", "two_parts_both_fail", "complete"]))
+    b = c["_b"]
+    script = c["_script"]
+    # position: just before the final drain of the first story, minus 0-3 steps already taken
+    script = script[:-1] + [{"e": "drain_step"}] * r.below(4) + [{"e": "hold_unprocessed"}]
+    probe = dict(c["_probe"]); probe.pop("probe", None)
+    script += [probe, {"e": "drain"}] + pay_ending(r, r.choice(["pending_then_done", "complete", "two_parts_one_done", "failed_noparts"]))[:r.choice([2, 3, 99])]
+    script += [{"e": "drain_step"}] * r.below(3) + [{"e": "release"}, {"e": "drain"}]
+    c["_script"] = script
+    c["family"] = c["family"].replace("story/", "straggler/")
+    return c
 
 def crash_variants(r, base, length, stride=1, probe=False, old_parts=None):
     """The same story with a whole-node crash injected before primitive event k, then replay of the unanswered HTLCs."""
